@@ -768,6 +768,7 @@ func (self *TextCommandConverter) ConvertTextExpireCommand(textProtocol ITextPro
 	self.ConvertArgId2LockId(args[1], &lockCommand.LockKey)
 	lockCommand.LockId = lockCommand.LockKey
 	lockCommand.Flag = LOCK_FLAG_UPDATE_WHEN_LOCKED
+	lockCommand.TimeoutFlag = TIMEOUT_FLAG_LOCK_WAIT_WHEN_UNLOCK
 	expried, err := strconv.ParseInt(args[2], 10, 64)
 	if err != nil {
 		_ = textProtocol.FreeLockCommand(lockCommand)
